@@ -599,6 +599,22 @@ def rule_picklable_state(ctx: Ctx) -> None:
     ctx.tri("7-picklable-state", gs, gs.node, "cloudpickle.dumps(self.func)" in gs_text, "self.func" not in gs_text and "'func'" not in gs_text, "PipeFunc.__getstate__ pickles `func` by value",
             "PipeFunc.__getstate__ no longer treats `func` specially", "handling of `func` in __getstate__ not recognised", key="func-by-value")
     ctx.floor("7-picklable-state.holders", n, 1)
+    # what crosses the process boundary (functions, pipelines, storage handles, run info) holds nothing the pickle module refuses
+    from ..flow import unpicklable_fields
+
+    shipped = [c for c in P.classes.values() if c.qualname in ("pipefunc._pipefunc.PipeFunc", "pipefunc._pipefunc.NestedPipeFunc", "pipefunc._pipeline._base.Pipeline", "pipefunc.map._run_info.RunInfo",
+                                                               "pipefunc._pipefunc.ErrorSnapshot", "pipefunc.map._mapspec.MapSpec", "pipefunc.resources.Resources")
+               or "pipefunc.map._storage_array._base.StorageBase" in [b.qualname for b in P.mro(c.qualname)]]
+    k = 0
+    for c in shipped:
+        if c.module.name.endswith("_zarr"):
+            continue
+        k += 1
+        bad = unpicklable_fields(P, c)
+        ctx.add("7-picklable-state", bad[0][0] if bad else c.qualname, bad[0][1] if bad else c.loc, not bad, f"{c.name} holds no lock / file / executor" if not bad else
+                f"`{norm(bad[0][1])[:60]}` puts a `{bad[0][3]}` on every {c.name}, and neither __getstate__ nor __reduce__ leaves `{bad[0][2]}` out: the object can no longer be pickled - "
+                "process pools, shared caches and save_to_file fail with TypeError (cannot pickle), sequential runs still work", key=f"no-unpicklable-field {c.name}")
+    ctx.floor("7-picklable-state.shipped", k, 8)
 
 
 def rule_no_shared_write(ctx: Ctx) -> None:
@@ -669,6 +685,50 @@ def rule_reads_are_stateless(ctx: Ctx) -> None:
                     f"`{norm(bad[0])[:60]}` in {cls.name}.{mname} stores something that depends on this call's arguments on the storage object, which all element tasks of a thread pool share: between this write and its use "
                     "another task can replace it - a task then receives the element of another index (sequential and process-pool runs stay correct, so results depend on the executor and the schedule)", key=f"stateless {cls.name}.{mname}")
     ctx.floor("8-no-shared-write.read-methods", n, 8)
+    # ... nor a snapshot of what the backing store CONTAINS (a directory listing, the key set of the mapping): every worker
+    # process holds its own copy of the object and writes to the same store, so a memoised listing / mask goes stale as soon as
+    # another copy dumps an element - has_index / mask then report stored elements as missing (recomputed or read as masked)
+    STORE_READ = re.compile(r"os\.listdir\(|\.iterdir\(\)|\.glob\(|\.rglob\(|\.is_file\(\)|\.exists\(\)|os\.scandir\(|self\._dict\b|self\._files\(\)|\bload\(")
+    m_ = 0
+    for cls in P.classes.values():
+        if base_q not in [c.qualname for c in P.mro(cls.qualname)] or cls.module.name.endswith("_zarr"):
+            continue
+        for mname, fn in cls.methods.items():
+            decos = [norm(d_) for d_ in fn.node.decorator_list]
+            memo = [d_ for d_ in decos if re.search(r"\b(cached_property|lru_cache|cache)\b", d_)]
+            if memo:
+                m_ += 1
+                reads = STORE_READ.search(norm(ast.Module(body=fn.node.body, type_ignores=[])))
+                ctx.add("8-no-shared-write", fn, fn.node, not reads, f"{cls.name}.{mname} is memoised and does not read the store" if not reads else
+                        f"{cls.name}.{mname} is memoised (`@{memo[0]}`) and reads the backing store (`{reads.group(0)}`): the snapshot is taken once per object, but other processes' copies keep writing to the same store - "
+                        "elements they stored later are reported as missing (recomputed on resume / read as masked)", key=f"no-store-snapshot {cls.name}.{mname}")
+            if mname not in READS:
+                continue
+            par = {id(c): p_ for p_ in ast.walk(fn.node) for c in ast.iter_child_nodes(p_)}
+            snap = []
+            for a in walk_no_nested(fn.node):
+                tg = a.targets if isinstance(a, ast.Assign) else ([a.target] if isinstance(a, (ast.AugAssign, ast.AnnAssign)) else [])
+                for t in tg:
+                    root = t
+                    while isinstance(root, ast.Subscript):
+                        root = root.value
+                    if not (isinstance(root, ast.Attribute) and isinstance(root.value, ast.Name) and root.value.id == "self"):
+                        continue
+                    if root.attr == "_dict" and isinstance(t, ast.Subscript):
+                        continue  # a store INTO the backing mapping is not a snapshot of it
+                    ctl, x = "", a
+                    while id(x) in par:
+                        x = par[id(x)]
+                        if isinstance(x, (ast.For, ast.AsyncFor)):
+                            ctl += " " + norm(x.iter)
+                    dep = (dependence_text(fn.node, a.value) if getattr(a, "value", None) is not None else "") + ctl
+                    if STORE_READ.search(dep):
+                        snap.append(a)
+            m_ += 1
+            ctx.add("8-no-shared-write", fn, snap[0] if snap else fn.node, not snap, f"{cls.name}.{mname} keeps no snapshot of the store's content on the object" if not snap else
+                    f"`{norm(snap[0])[:60]}` in {cls.name}.{mname} keeps what the backing store contained at this moment on the object: other processes' copies keep writing to the same store, so the memo goes stale - "
+                    "elements stored later by another copy are reported as missing (recomputed on resume / read as masked)", key=f"no-store-snapshot {cls.name}.{mname}")
+    ctx.floor("8-no-shared-write.snapshots", m_, 8)
 
 
 def rule_parent_stores_single_outputs(ctx: Ctx) -> None:
